@@ -38,9 +38,10 @@ AllOps   == ArithOps \cup OrdOps \cup BoolOps \cup EqOps \cup RefOps
 
 -----------------------------------------------------------------------------
 (* Structural equality.  Result: [r |-> "bool", b], or [r |-> "err", path, *)
-(* lt, rt] when a pair of different kinds (or two functions) is reached,   *)
-(* or [r |-> "cyclic"] when the descent re-enters a pair of containers it  *)
-(* is already comparing (Decision_CyclicIsError).  The traversal order is  *)
+(* lt, rt] when a pair of different kinds (or two functions) is reached.   *)
+(* A pair of containers that is met again while it is being compared (the  *)
+(* values contain themselves) is taken as equal, so the comparison always  *)
+(* terminates (Decision_CyclicEqIsCoinductive).  The traversal order is    *)
 (* the documented one: identity short-cut, then length, then elements in   *)
 (* index order / properties in ascending key order of the left operand.    *)
 
@@ -54,14 +55,14 @@ EqV(a, b, heap, path) ==
     ELSE IF a.k = "string" /\ b.k = "string" THEN EqBool(a.s = b.s)
     ELSE IF a.k = "list" /\ b.k = "list" THEN
         IF a.id = b.id THEN EqBool(TRUE)
-        ELSE IF <<a.id, b.id>> \in path THEN [r |-> "cyclic"]
+        ELSE IF <<a.id, b.id>> \in path THEN EqBool(TRUE)
         ELSE LET xs == heap[a.id].items
                  ys == heap[b.id].items
              IN  IF Len(xs) # Len(ys) THEN EqBool(FALSE)
                  ELSE EqListFrom(xs, ys, 1, heap, path \cup {<<a.id, b.id>>})
     ELSE IF a.k = "object" /\ b.k = "object" THEN
         IF a.id = b.id THEN EqBool(TRUE)
-        ELSE IF <<a.id, b.id>> \in path THEN [r |-> "cyclic"]
+        ELSE IF <<a.id, b.id>> \in path THEN EqBool(TRUE)
         ELSE LET xs == heap[a.id].props
                  ys == heap[b.id].props
              IN  IF Cardinality(DOMAIN xs) # Cardinality(DOMAIN ys) THEN EqBool(FALSE)
@@ -74,7 +75,6 @@ EqListFrom(xs, ys, i, heap, path) ==
     ELSE LET r == EqV(xs[i].v, ys[i].v, heap, path)
          IN  IF r.r = "err"
              THEN [r EXCEPT !.path = <<S("["), N(i - 1), S("]")>> \o r.path]
-             ELSE IF r.r = "cyclic" THEN r
              ELSE IF ~r.b THEN r
              ELSE EqListFrom(xs, ys, i + 1, heap, path)
 
@@ -85,7 +85,6 @@ EqObjFrom(xs, ys, keys, i, heap, path) ==
          ELSE LET r == EqV(xs[key].v, ys[key].v, heap, path)
               IN  IF r.r = "err"
                   THEN [r EXCEPT !.path = <<S(".'"), Bt(key), S("'")>> \o r.path]
-                  ELSE IF r.r = "cyclic" THEN r
                   ELSE IF ~r.b THEN r
                   ELSE EqObjFrom(xs, ys, keys, i + 1, heap, path)
 
@@ -117,7 +116,6 @@ ApplyOp(op, a, b, heap) ==
     IF op \in EqOps THEN
         LET r == Eq(a, b, heap) IN
         IF r.r = "bool" THEN OpVal(VBool(IF op = "==" THEN r.b ELSE ~r.b))
-        ELSE IF r.r = "cyclic" THEN OpErr("CyclicValue", <<S("cyclic value")>>)
         ELSE OpErr("InvalidEqOpTypes",
                    <<S("can't apply '"), S(op), S("' to '"), S(r.lt), S("' and '"),
                      S(r.rt), S("'")>>
